@@ -35,6 +35,9 @@ type c16Scenario struct {
 	// ViaHTTP: the scrapes go through the real HTTP API (fiber + prometheus registry on a local port, child process):
 	// GET <metric path> instead of Collect(), and GET /states/offset is compared with the tracked positions as well
 	ViaHTTP bool `json:"via_http,omitempty"`
+	// Delayed: the stream's membership type is not "dynamic": the reopen of a rebalance waits for the rebalance delay, and
+	// some rebalances are triggered twice within it (merged into one)
+	Delayed bool `json:"delayed,omitempty"`
 }
 
 type c16Scrape struct {
@@ -117,14 +120,21 @@ func c16Exec(sc c16Scenario) (string, map[string]bool) {
 	}
 	h := sc.H
 	s := newSession(&h, "C16")
+	// the discovery object takes its numbers from the bus (dynamic membership); the stream either reopens at once (dynamic
+	// membership) or after the rebalance delay (every other membership type), during which further notifications are merged
+	cfgD := *s.cfg
+	cfgD.Dcp.Group.Membership.Type = membership.DynamicMembershipType
 	s.cfg.Dcp.Group.Membership.Type = membership.DynamicMembershipType
+	if sc.Delayed {
+		s.cfg.Dcp.Group.Membership.Type = membership.CouchbaseMembershipType
+	}
 	bus := EventBus.New()
 	total, member := sc.Total, sc.Member
 	announce := func() {
 		bus.Publish(helpers.MembershipChangedBusEventName, &membership.Model{MemberNumber: member, TotalMembers: total})
 		bus.WaitAsync()
 	}
-	disc := stream.NewVBucketDiscovery(s.cl, s.cfg, h.NumVb, bus)
+	disc := stream.NewVBucketDiscovery(s.cl, &cfgD, h.NumVb, bus)
 	s.discI = disc
 	col := metric.NewMetricCollector(s.cl, nil, disc)
 	_ = col
@@ -380,12 +390,12 @@ func c16Exec(sc c16Scenario) (string, map[string]bool) {
 		case "scrape":
 			scrape()
 		}
-		if s.viol != nil {
+		if s.viol != nil || s.stopped {
 			break
 		}
 	}
 	s.step = len(h.Ops) + 1
-	if s.viol == nil {
+	if s.viol == nil && !s.stopped {
 		scrape()
 	}
 	s.finish()
@@ -405,6 +415,7 @@ func TestC16_Metrics(t *testing.T) {
 		sc.Member = rapid.IntRange(1, sc.Total).Draw(rt, "member")
 		sc.H.Lo, sc.H.Hi = c16Range(sc.H.NumVb, sc.Total, sc.Member)
 		sc.ViaHTTP = rapid.IntRange(0, 39).Draw(rt, "viahttp") == 23 // (rapid favours the ends of a range)
+		sc.Delayed = rapid.Bool().Draw(rt, "delayed")
 		if rapid.IntRange(0, 2).Draw(rt, "skipuntil") == 0 {
 			sc.H.SkipAt = rapid.IntRange(2, 25).Draw(rt, "skipat") // document events older than that are dropped, and must not be counted
 		}
